@@ -432,6 +432,8 @@ def _selective_in(rep, prog, rm, found):
                         ok_extra = True
             if ok_len and ok_extra:
                 rep.ok("C11.selective", prog, rm, n, "%s(e) only under |e|^2 %s %s%s" % (callee.split("::")[1], op, field.split("::")[1], " and can_be_merged(e)" if extra else ""))
+            elif fi.enclosing(n, ("SwitchStmt",)) is not None:
+                raise AnalysisBroken("refine_mesh: %s is selected by a switch (line %s); what holds in a case of a switch is not modelled, the length test that governs it is not decided" % (callee.split("::")[1], n.get("l")))
             else:
                 rep.violation("C11.selective", prog, rm, n, "%s not guarded by the length test" % callee.split("::")[1],
                               "%s is not dominated by 'squared length of that edge %s %s'%s: a mesh that already satisfies the length band would be modified" % (short(n, 60), op, field.split("::")[1], " and can_be_merged" if extra else ""))
@@ -501,19 +503,33 @@ def bounded(rep, prog):
     root = prog.fn("local_mesh_refiner::refine_mesh")
     fi = prog.index(root)
     # (1)-(3): the work loop of refine_mesh
-    loops = [n for n in walk(root["body"]) if n.get("k") == "WhileStmt"]
+    from ..model import facts_at
+    refills0 = [x for x in walk(root["body"]) if x.get("k") == "CXXMemberCallExpr" and x.get("callee") in ("local_mesh_refiner::split_edge", "local_mesh_refiner::merge_edge")]
+    loops = []
+    for r_ in refills0:
+        l_ = fi.enclosing(r_, ("WhileStmt", "ForStmt", "DoStmt"))
+        if l_ is not None and all(l_ is not x for x in loops):
+            loops.append(l_)
     if len(loops) != 1:
         raise AnalysisBroken("refine_mesh: expected one work loop, found %d" % len(loops))
     wl = loops[0]
+    # the operation counter: an integer local that is known to be below a bound whenever an edge is split / merged (the loop
+    # condition `work left && counter < bound`, or `if(!(counter < bound)) break;` in front of the operations)
     counter = None
-    for c in walk(wl["cond"]):
-        if c.get("k") == "BinaryOperator" and c.get("op") in ("<", "<="):
-            l = strip(c["c"][0])
-            if l.get("k") == "DeclRefExpr" and l["ref"].get("dk") == "Var" and "int" in (l.get("t") or "") or l.get("k") == "DeclRefExpr" and "long" in (l.get("t") or ""):
-                counter = l["ref"]
-    top_and = strip(wl["cond"])
-    if counter is None or not (top_and.get("k") == "BinaryOperator" and top_and.get("op") == "&&"):
-        rep.violation(rule, prog, root, wl, "work loop not bounded by an operation counter", "the work loop of refine_mesh (%s) is not of the form 'work left && counter < bound': edges that keep being split and merged (unstable simulation) would be processed forever" % short(wl["cond"], 80))
+    for r_ in refills0:
+        c_here = None
+        for at_, tr_ in facts_at(root, fi, r_):
+            if at_.get("k") == "BinaryOperator" and ((at_.get("op") in ("<", "<=") and tr_) or (at_.get("op") in (">=", ">") and not tr_)):
+                l = strip(at_["c"][0])
+                if l.get("k") == "DeclRefExpr" and l["ref"].get("dk") == "Var" and ("int" in (l.get("t") or "") or "long" in (l.get("t") or "")):
+                    if list(_writes_var(wl["body"], l["ref"]["did"])):
+                        c_here = l["ref"]
+        if c_here is None:
+            counter = None
+            break
+        counter = c_here
+    if counter is None:
+        rep.violation(rule, prog, root, wl, "work loop not bounded by an operation counter", "the work loop of refine_mesh (%s) does not guarantee 'counter < bound' when an edge is split or merged: edges that keep being split and merged (unstable simulation) would be processed forever" % short(wl.get("cond") or wl, 80))
         return
     rep.ok(rule, prog, root, wl, "work loop runs only while %s < bound" % counter["name"])
     body = wl["body"].get("c", []) if wl["body"].get("k") == "CompoundStmt" else [wl["body"]]
